@@ -311,6 +311,11 @@ func c05TypesBatch(c *sim.Chain, rec *ev.Rec, appID uint64, params liqtypes.Gene
 		if rec.Get("types_batches_panicked") <= 2 {
 			rec.Note(fmt.Sprintf("in-situ (order types) ExecuteRequests panic: %v; history %v", panicked, history))
 		}
+		// every order in the book came from an accepted message: a batch the keeper cannot apply means the matcher
+		// handed out a result outside an order's bounds (e.g. a payment above the offer coin makes the remaining offer
+		// coin negative); on the chain the whole app's batch is rolled back in every block
+		rec.Eval(1)
+		rec.Violate("C05/in-situ/order-types/batch-execution-panicked/"+panicClass(panicked), fmt.Sprintf("keeper.ExecuteRequests panicked on a book of accepted orders: %v", panicked), map[string]interface{}{"history": append([]string(nil), history...), "app": appID})
 		return
 	}
 	witness := func(extra map[string]interface{}) map[string]interface{} {
